@@ -3,6 +3,7 @@ package main
 // Per-function verification driver and obligation discharge.
 
 import (
+	"context"
 	"fmt"
 	"go/types"
 	"os"
@@ -240,7 +241,50 @@ func dischargeAll(frs []*FuncResult, timeoutMs int, workers int, dumpDir string)
 					o.Done = true
 					return
 				}
-				o.Res = Discharge(body, timeoutMs, strings.Contains(body, "forall"))
+				hasQ := strings.Contains(body, "forall")
+				if hasQ {
+					// quantified goals: race the full query against sliced ones (fewer hypotheses)
+					type sl struct {
+						ok    bool
+						label string
+						secs  float64
+					}
+					rctx, rcancel := context.WithCancel(context.Background())
+					defer rcancel()
+					sch := make(chan sl, 1)
+					go func() {
+						ok, label, secs := dischargeSliced(rctx, o.PC.Entries(), o.Goal.s, timeoutMs)
+						sch <- sl{ok, label, secs}
+					}()
+					fch := make(chan SolveResult, 1)
+					go func() { fch <- DischargeCtx(rctx, body, timeoutMs) }()
+					var full *SolveResult
+					var sliced *sl
+					for full == nil || sliced == nil {
+						select {
+						case r := <-fch:
+							full = &r
+						case s := <-sch:
+							sliced = &s
+						}
+						if full != nil && full.V != Unknown {
+							break
+						}
+						if sliced != nil && sliced.ok {
+							break
+						}
+					}
+					switch {
+					case full != nil && full.V != Unknown:
+						o.Res = *full
+					case sliced != nil && sliced.ok:
+						o.Res = SolveResult{V: Unsat, Solver: "z3-new(sliced " + sliced.label + ")", Secs: sliced.secs, Tried: []string{"z3-new"}}
+					default:
+						o.Res = *full
+					}
+				} else {
+					o.Res = Discharge(body, timeoutMs, false)
+				}
 				o.Done = true
 				if dumpDir != "" && o.Res.V != Unsat {
 					os.MkdirAll(dumpDir, 0o755)
